@@ -121,10 +121,19 @@ func runC18(e *Engine, g G, o RunOpt) RunInfo {
 			if sc.End == "disconnect" {
 				tEnd = e.Now()
 			} else {
+				// the end of the session is announced by a Disconnected event (loss)
+				// or a StreamError event (the server ended the stream with an error)
 				e.WaitUntilFor("await-end", time.Duration(sc.Client.ConnectTimeout+10)*time.Second, func() bool {
-					return countState(s.W.Events, xmpp.StateDisconnected) > 0
+					return countState(s.W.Events, xmpp.StateDisconnected)+countState(s.W.Events, xmpp.StateStreamError) > 0
 				})
 				tEnd = lastDisconnected(s.W)
+				if tEnd < 0 {
+					for _, ev := range s.W.Events {
+						if ev.State == xmpp.StateStreamError {
+							tEnd = ev.At
+						}
+					}
+				}
 			}
 			e.Sleep(3*interval + time.Second)
 		}
@@ -185,7 +194,7 @@ func runC18(e *Engine, g G, o RunOpt) RunInfo {
 			}
 		}
 	} else if sc.End != "none" {
-		e.Violate("C18", "end-not-reported", "session end (%s) was never reported by a Disconnected event", sc.End)
+		e.Violate("C18", "end-not-reported", "session end (%s) was never reported by a Disconnected or StreamError event", sc.End)
 	}
 	if len(kas) > expect && (sc.End == "none") {
 		e.Violate("C18", "keepalive-extra", "%d keepalives written, %d expected: %v", len(kas), expect, kaTimes(kas))
